@@ -226,6 +226,9 @@ def run_history(cl, be, cls, hist, zV, zK, K, track=False, pickle_hook=None):
                 ref.A[st[2]] = list(ref.A.get(sid, []))
             elif op == "pickle":
                 S[sid] = pickle.loads(pickle.dumps(s, -1))
+            elif op == "pickle2":
+                # two solvers in ONE pickle (they may share children / caches)
+                S[sid], S[st[2]] = pickle.loads(pickle.dumps((s, S[st[2]]), -1))
             elif op == "unsat_core":
                 r = s.unsat_core()
                 log.append((i, "core", sid, r, ref.conj(sid), list(ref.A.get(sid, []))))
@@ -525,7 +528,7 @@ def _validate_history(hist):
                     if isinstance(a, str) and a not in ATOMS and a not in EXPRS:
                         raise KeyError(f"history mentions unknown atom/expression {a!r}")
             elif isinstance(part, str) and part not in ATOMS and part not in EXPRS and part not in (
-                    "add", "sat", "eval", "batch", "min", "max", "solution", "is_true", "is_false", "simplify", "downsize", "branch", "pickle",
+                    "add", "sat", "eval", "batch", "min", "max", "solution", "is_true", "is_false", "simplify", "downsize", "branch", "pickle", "pickle2",
                     "unsat_core", "combine", "merge", "split"):
                 raise KeyError(f"history mentions unknown name {part!r}")
 
@@ -737,6 +740,8 @@ def _replay_real_z3(case):
                     R[st[2]] = list(R[sid])
                 elif op == "pickle":
                     S[sid] = pickle.loads(pickle.dumps(s, -1))
+                elif op == "pickle2":
+                    S[sid], S[st[2]] = pickle.loads(pickle.dumps((s, S[st[2]]), -1))
                 elif op == "unsat_core":
                     core = list(s.unsat_core())
                     ms = models(R[sid])
